@@ -835,6 +835,7 @@ class Facts:
         self.path = path
         self.types = self.j['types']
         self.fns = {n: Fn(n, j, self.types) for n, j in self.j['fns'].items()}
+        self.consts = {n: Fn(n, j, self.types) for n, j in (self.j.get('consts') or {}).items()}   # initialisers of named constants
         self.adts = self.j['adts']
         self.overflow_checks = self.j['overflow_checks']
         self.tag = self.j.get('tag', '')
@@ -844,6 +845,11 @@ class Facts:
 
     def fn(self, name):
         return self.fns.get(name)
+
+    def const_value(self, cpath):
+        """expression of a named constant's initialiser, or None"""
+        c = self.consts.get(cpath)
+        return c.expr_of_local(0) if c is not None else None
 
     def need(self, name):
         f = self.fns.get(name)
